@@ -10,7 +10,7 @@ import (
 func init() { gens["C11"] = genC11 }
 
 func c11FlagsOf(o *out, repo, rel, recv, fn string, names ...string) error {
-	f, err := goast.Load(repo, rel)
+	f, err := c10Load(repo, rel)
 	if err != nil {
 		return err
 	}
@@ -27,7 +27,7 @@ func genC11(repo string) (string, error) {
 		return "", err
 	}
 	// ---- region_scatterer.go ----
-	sc, err := goast.Load(repo, "server/schedule/region_scatterer.go")
+	sc, err := c10Load(repo, "server/schedule/region_scatterer.go")
 	if err != nil {
 		return "", err
 	}
@@ -42,7 +42,7 @@ func genC11(repo string) (string, error) {
 	if err != nil {
 		return "", err
 	}
-	el, err := c10ast.CompositeElems(sc, cand, "filters")
+	el, err := c10ast.FirstCompositeOf(sc, cand, "[]filter.Filter")
 	if err != nil {
 		return "", err
 	}
@@ -59,7 +59,7 @@ func genC11(repo string) (string, error) {
 		fd, _ := sc.Func("RegionScatterer", fn)
 		fmt.Fprintf(&o.sb, "Definition src_%s : string := (* region_scatterer.go *)\n  %s.\n", fn, goast.Q(sc.Src(fd.Body)))
 	}
-	co, err := goast.Load(repo, "server/schedule/operator/create_operator.go")
+	co, err := c10Load(repo, "server/schedule/operator/create_operator.go")
 	if err != nil {
 		return "", err
 	}
@@ -78,7 +78,7 @@ func genC11(repo string) (string, error) {
 	if err := c11FlagsOf(&o, repo, "server/schedulers/balance_region.go", "", "newBalanceRegionScheduler", "balance_region_source_flags"); err != nil {
 		return "", err
 	}
-	br, err := goast.Load(repo, "server/schedulers/balance_region.go")
+	br, err := c10Load(repo, "server/schedulers/balance_region.go")
 	if err != nil {
 		return "", err
 	}
@@ -89,12 +89,12 @@ func genC11(repo string) (string, error) {
 	if err := c10Flags(&o, br, tp, "balance_region_target_flags"); err != nil {
 		return "", err
 	}
-	el, err = c10ast.CompositeElems(br, tp, "filters")
+	el, err = c10ast.FirstCompositeOf(br, tp, "[]filter.Filter")
 	if err != nil {
 		return "", err
 	}
 	o.strList("balance_region_filters", el, "balance-region transferPeer: target filters")
-	np, err := c10ast.AssignSrc(br, tp, "newPeer")
+	np, err := c10ast.FirstCompositeSrc(br, tp, "metapb.Peer")
 	if err != nil {
 		return "", err
 	}
@@ -115,7 +115,7 @@ func genC11(repo string) (string, error) {
 		}
 	}
 	// hot-region: the two StoreStateFilter literals of filterDstStores (move peer, transfer leader) and their filter lists
-	hr, err := goast.Load(repo, "server/schedulers/hot_region.go")
+	hr, err := c10Load(repo, "server/schedulers/hot_region.go")
 	if err != nil {
 		return "", err
 	}
@@ -127,8 +127,27 @@ func genC11(repo string) (string, error) {
 		return "", err
 	}
 	fmt.Fprintf(&o.sb, "Definition src_hot_filterDstStores : string := (* hot_region.go *)\n  %s.\n", goast.Q(hr.Src(fds.Body)))
+	pds, err := hr.Func("balanceSolver", "pickDstStores")
+	if err != nil {
+		return "", err
+	}
+	fmt.Fprintf(&o.sb, "Definition src_hot_pickDstStores : string := (* hot_region.go *)\n  %s.\n", goast.Q(hr.Src(pds.Body)))
+	ff, err := c10Load(repo, "server/schedule/filter/filters.go")
+	if err != nil {
+		return "", err
+	}
+	ft, err := ff.Func("", "Target")
+	if err != nil {
+		return "", err
+	}
+	fmt.Fprintf(&o.sb, "Definition src_filter_Target : string := (* filters.go: a store is a target only if ALL filters accept it *)\n  %s.\n", goast.Q(ff.Src(ft.Body)))
+	sts, err := ff.Func("", "SelectTargetStores")
+	if err != nil {
+		return "", err
+	}
+	fmt.Fprintf(&o.sb, "Definition src_SelectTargetStores : string :=\n  %s.\n", goast.Q(ff.Src(sts.Body)))
 	// shuffle-hot-region: randomSchedule
-	sh, err := goast.Load(repo, "server/schedulers/shuffle_hot_region.go")
+	sh, err := c10Load(repo, "server/schedulers/shuffle_hot_region.go")
 	if err != nil {
 		return "", err
 	}
@@ -139,7 +158,7 @@ func genC11(repo string) (string, error) {
 	if err := c10Flags(&o, sh, rsf, "shuffle_hot_flags"); err != nil {
 		return "", err
 	}
-	el, err = c10ast.CompositeElems(sh, rsf, "filters")
+	el, err = c10ast.FirstCompositeOf(sh, rsf, "[]filter.Filter")
 	if err != nil {
 		return "", err
 	}
@@ -154,7 +173,7 @@ func genC11(repo string) (string, error) {
 	}
 	o.strList("chain_CreateMoveLeaderOperator", ch, "create_operator.go: CreateMoveLeaderOperator")
 	// grant-leader: the forced transfer
-	gl, err := goast.Load(repo, "server/schedulers/grant_leader.go")
+	gl, err := c10Load(repo, "server/schedulers/grant_leader.go")
 	if err != nil {
 		return "", err
 	}
@@ -163,7 +182,7 @@ func genC11(repo string) (string, error) {
 		return "", err
 	}
 	// scatter-range delegates to a balance-leader and a balance-region scheduler
-	sr2, err := goast.Load(repo, "server/schedulers/scatter_range.go")
+	sr2, err := c10Load(repo, "server/schedulers/scatter_range.go")
 	if err != nil {
 		return "", err
 	}
@@ -172,7 +191,7 @@ func genC11(repo string) (string, error) {
 		return "", err
 	}
 	// shuffle-region: how the new peer is chosen
-	sr, err := goast.Load(repo, "server/schedulers/shuffle_region.go")
+	sr, err := c10Load(repo, "server/schedulers/shuffle_region.go")
 	if err != nil {
 		return "", err
 	}
@@ -181,7 +200,7 @@ func genC11(repo string) (string, error) {
 		return "", err
 	}
 	fmt.Fprintf(&o.sb, "Definition src_shuffle_scheduleAddPeer : string := (* shuffle_region.go *)\n  %s.\n", goast.Q(sr.Src(ap.Body)))
-	bl, err := goast.Load(repo, "server/schedulers/balance_leader.go")
+	bl, err := c10Load(repo, "server/schedulers/balance_leader.go")
 	if err != nil {
 		return "", err
 	}
